@@ -84,6 +84,21 @@ STRENGTHENED = """
 | C07-b (process-local memo) by C07 (caught by C17 after adding "replayed foreign certificate" inputs) | every process in the comparison had seen the same history | the cross-process check can now start the child from a dump of the node's disk taken mid-history (a node restarted in a fresh process) |
 | C13-a (close-bid skipped when Unreserve fails) | Unreserve was never failed | Unreserve is failable like every other call |
 | C14-b (manager dropped at teardown request) | no stimulus after the close | late manifests and repeated lease-closed signals are generated for closed leases |
+| C03-c (overdraft does not persist zero-balance payments) | needs a withdrawal at the exact block of exhaustion | C03 and C05 run the scripted sweep workloads in 30 % of their runs |
+| C04-d (order maximum inflated) | the oracle used `GroupSpec.Price()` itself as "the order's maximum" | the maximum is computed by the harness (sum of unit price x count); C08 and C13 use the same independent value; C13 orders may have two resource entries |
+| C06-c (loser closes the winner's lease) | changes stayed inside the named group, which was the finest scope checked; close-bid was rarely aimed at a lost bid | new rule: an action assigned to a provider must not change the state of another provider's bid, lease, deposit account or payment while the deployment stays active; close-bid of lost bids generated |
+| C07-c (orders checked in map order) | a provider rarely had >= 2 active leases, and a probabilistic divergence did not reproduce in the single confirmation replay | busy-provider mode + targeted update-provider generator; 2-4 replicas; replays of C07 are repeated up to 12 times (the property is about repetitions) |
+| C07-d (wall clock in ValidateBasic) | every process of a comparison read the same real clock | clock-skew fault: the child process replays under a simulated wall clock (2003..2095); certificates with validity ends from 2001 to 2090 |
+| C08-c (empty attribute value) / C08-d (upper-case spelling of the tenant's address) | the attribute universe had no empty value; the harness's own "provider is the tenant" test compared strings as the changed code does | `gpu=""` in the universe; self-bids in both spellings; the oracle compares decoded accounts |
+| C09-c (validity evaluated at now+2min) | validity windows were hours away from their boundaries | four windows 5 s / 90 s from a boundary |
+| C09-d (owner in a variable shared across requests) | requests were strictly sequential | Layer 2 for the gateway: statement-level scheduling points in the middleware, 2-3 concurrent authenticated requests |
+| C10-c (leading zeros of the version lost in event parsing) | the scenario put typed events on the bus | chain events go through the provider's real event parser; dropped events are dropped |
+| C10-d (announced manifest aliases the last queued request) | caught at once by C20 (announced-unvalidated-manifest); C10 had no class for it | C10 flags an announced manifest whose hash was never a version on chain |
+| C13-d (failed existing-bid lookup = no bid) | "at most one bid" was checked per incarnation | the chain model flags a create-bid arriving while the provider's bid is on chain, whichever incarnation sent it; lookup failures three times as likely |
+| C14-d (hostnames not released when closed during the reservation) | only Layer 2 reaches the window, and Layer 2 did not ask the hostname service afterwards | Layer 2 ends with a full quiescence (time passes until nothing wakes up) and then asks the real inventory and hostname services |
+| C17-c (duplicate check by key prefix) | a refused fresh registration was only counted (the statement does not demand success) | refusing a never-registered (owner, serial) *with the reason "certificate exists"* is flagged: uniqueness is per pair |
+| C17-d (owner = Issuer CN) | all generated certificates were self-signed | certificates issued by one account naming another, submitted by either |
+| C19-c (adjacent duplicates only) / C19-d (cpu truncated to 32 bits) | duplicates were generated adjacent; no value beyond 2^32 with in-range low bits | non-adjacent duplicate names in 3-5 groups; values = in-range + 2^16 / 2^32 / 2^48; excess in a later resource entry |
 | C20-a (wait on Done()) / C10-b (updates dropped during fetch) | deployment-closed rarely hit an in-flight fetch; fetch answers were always computed at completion time; no submission of the previous version | close is 4x more likely while a fetch is in flight; 40 % of fetch answers reflect the state at issue time; new submission kind "previous-version" |
 """
 
